@@ -21,6 +21,7 @@ EXPLANATION = (
     ' No default argument or module-level binding of the printer modules may evaluate the active language (it is set after import).'
     ' Third round: PTB writer templates and bracket escaping (R7.7, shared with C20); the json encoder writes only into records it created (R7.8).'
     ' Fourth round: Prolog text decodes (R7.9: escaping steps of quoted atoms do not rewrite each other, the arguments of a Japanese term are comma-separated); the html category splitter accepts every feature spelling of the shipped inventories (R7.10).'
+    ' Fifth round: records numbered by a per-tree counter (R7.3), positions found by searching for an equal element (R7.11), field order of the extended AUTO leaf (R7.12).'
 )
 TRUSTED = ['CPython ast', 'sa/pysym.py path walker', 'rule table DESIGN.md C07']
 
